@@ -225,7 +225,7 @@ def run_one(choices, params):
 
 
 def prepare(tier, seed):
-    return 1200 if tier == "quick" else 60000
+    return 6000 if tier == "quick" else 60000
 
 
 def params_for(i, tier, seed):
